@@ -28,6 +28,7 @@ use crate::cpc::compression_data::LENGTH_LIMITED_UNARY_ENCODING_TABLE65;
 use crate::cpc::determine_correct_offset;
 use crate::cpc::determine_flavor;
 use crate::cpc::pair_table::PairTable;
+use crate::error::Error;
 
 #[derive(Default)]
 pub(super) struct CompressedState {
@@ -355,20 +356,62 @@ pub(super) struct UncompressedState {
 }
 
 impl CompressedState {
-    pub fn uncompress(&self, lg_k: u8, num_coupons: u32) -> UncompressedState {
-        match determine_flavor(lg_k, num_coupons) {
+    /// Rebuilds window and table from the compressed streams of an image.
+    ///
+    /// The streams come from untrusted bytes: every inconsistency between the header
+    /// fields and the streams is reported as an error.
+    pub fn uncompress(&self, lg_k: u8, num_coupons: u32) -> Result<UncompressedState, Error> {
+        let flavor = determine_flavor(lg_k, num_coupons);
+        let has_table = !self.table_data.is_empty();
+        let has_window = !self.window_data.is_empty();
+        let flags_ok = match flavor {
+            Flavor::Empty => !has_table && !has_window,
+            Flavor::Sparse | Flavor::Hybrid => has_table && !has_window,
+            Flavor::Pinned | Flavor::Sliding => has_window,
+        };
+        if !flags_ok {
+            return Err(Error::deserial(format!(
+                "table/window sections do not match the flavor {flavor:?} implied by {num_coupons} coupons"
+            )));
+        }
+        if determine_correct_offset(lg_k, num_coupons) > 56 {
+            return Err(Error::deserial(format!(
+                "{num_coupons} coupons are too many for lg_k {lg_k}"
+            )));
+        }
+        if has_table {
+            let num_pairs = self.table_num_entries as u64;
+            // every pair takes at least two bits of the stream, there are no more pairs than
+            // coupons (except the surprising zeros of the sliding flavor, at most one per bit
+            // of the early zone) and the pair table has a hard capacity
+            let max_pairs = (3u64 << (lg_k + 5)) / 4;
+            if num_pairs == 0
+                || num_pairs > (self.table_data.len() as u64) * 16
+                || num_pairs > max_pairs
+                || (flavor != Flavor::Sliding && num_pairs > num_coupons as u64)
+            {
+                return Err(Error::deserial(format!(
+                    "invalid number of surprising values: {num_pairs}"
+                )));
+            }
+        } else if self.table_num_entries != 0 && flavor != Flavor::Empty && has_window {
+            // no table section: the number of pairs must be zero
+            return Err(Error::deserial("surprising values without a table section"));
+        }
+        let state = match flavor {
             Flavor::Empty => UncompressedState {
                 table: PairTable::new(2, lg_k + 6),
                 window: vec![],
             },
-            Flavor::Sparse => self.uncompress_sparse_flavor(lg_k),
-            Flavor::Hybrid => self.uncompress_hybrid_flavor(lg_k),
-            Flavor::Pinned => self.uncompress_pinned_flavor(lg_k, num_coupons),
-            Flavor::Sliding => self.uncompress_sliding_flavor(lg_k, num_coupons),
-        }
+            Flavor::Sparse => self.uncompress_sparse_flavor(lg_k)?,
+            Flavor::Hybrid => self.uncompress_hybrid_flavor(lg_k)?,
+            Flavor::Pinned => self.uncompress_pinned_flavor(lg_k, num_coupons)?,
+            Flavor::Sliding => self.uncompress_sliding_flavor(lg_k, num_coupons)?,
+        };
+        Ok(state)
     }
 
-    fn uncompress_sparse_flavor(&self, lg_k: u8) -> UncompressedState {
+    fn uncompress_sparse_flavor(&self, lg_k: u8) -> Result<UncompressedState, Error> {
         debug_assert!(self.window_data.is_empty(), "window is not expected");
         debug_assert!(!self.table_data.is_empty(), "table is expected");
 
@@ -377,15 +420,16 @@ impl CompressedState {
             self.table_data_words,
             self.table_num_entries,
             lg_k,
-        );
+            64,
+        )?;
 
-        UncompressedState {
+        Ok(UncompressedState {
             table: PairTable::from_slots(lg_k, self.table_num_entries, pairs),
             window: vec![],
-        }
+        })
     }
 
-    fn uncompress_hybrid_flavor(&self, lg_k: u8) -> UncompressedState {
+    fn uncompress_hybrid_flavor(&self, lg_k: u8) -> Result<UncompressedState, Error> {
         debug_assert!(self.window_data.is_empty(), "window is not expected");
         debug_assert!(!self.table_data.is_empty(), "table is expected");
 
@@ -394,7 +438,8 @@ impl CompressedState {
             self.table_data_words,
             self.table_num_entries,
             lg_k,
-        );
+            64,
+        )?;
 
         // In the hybrid flavor, some of these pairs actually belong in the window, so we will
         // separate them out, moving the "true" pairs to the bottom of the array.
@@ -414,13 +459,17 @@ impl CompressedState {
             }
         }
 
-        UncompressedState {
+        Ok(UncompressedState {
             table: PairTable::from_slots(lg_k, next_true_pair, pairs),
             window,
-        }
+        })
     }
 
-    fn uncompress_pinned_flavor(&self, lg_k: u8, num_coupons: u32) -> UncompressedState {
+    fn uncompress_pinned_flavor(
+        &self,
+        lg_k: u8,
+        num_coupons: u32,
+    ) -> Result<UncompressedState, Error> {
         debug_assert!(!self.window_data.is_empty(), "window is expected");
 
         let mut window = vec![];
@@ -430,34 +479,34 @@ impl CompressedState {
             &mut window,
             lg_k,
             num_coupons,
-        );
+        )?;
         let num_pairs = self.table_num_entries;
-        let table = if num_pairs == 0 {
+        let table = if num_pairs == 0 || self.table_data.is_empty() {
             PairTable::new(2, lg_k + 6)
         } else {
-            debug_assert!(!self.table_data.is_empty(), "table is expected");
+            // the columns were shifted down by 8 (the window), so they are below 56
             let mut pairs = uncompress_surprising_values(
                 &self.table_data,
                 self.table_data_words,
                 num_pairs,
                 lg_k,
-            );
+                56,
+            )?;
             // undo the compressor's 8-column shift
             for i in 0..num_pairs {
                 let i = i as usize;
-                assert!(
-                    (pairs[i] & 63) < 56,
-                    "pair column index is invalid: {}",
-                    pairs[i]
-                );
                 pairs[i] += 8;
             }
             PairTable::from_slots(lg_k, num_pairs, pairs)
         };
-        UncompressedState { table, window }
+        Ok(UncompressedState { table, window })
     }
 
-    fn uncompress_sliding_flavor(&self, lg_k: u8, num_coupons: u32) -> UncompressedState {
+    fn uncompress_sliding_flavor(
+        &self,
+        lg_k: u8,
+        num_coupons: u32,
+    ) -> Result<UncompressedState, Error> {
         debug_assert!(!self.window_data.is_empty(), "window is expected");
 
         let mut window = vec![];
@@ -467,18 +516,19 @@ impl CompressedState {
             &mut window,
             lg_k,
             num_coupons,
-        );
+        )?;
         let num_pairs = self.table_num_entries;
-        let table = if num_pairs == 0 {
+        let table = if num_pairs == 0 || self.table_data.is_empty() {
             PairTable::new(2, lg_k + 6)
         } else {
-            debug_assert!(!self.table_data.is_empty(), "table is expected");
+            // the permuted columns are below 56
             let mut pairs = uncompress_surprising_values(
                 &self.table_data,
                 self.table_data_words,
                 num_pairs,
                 lg_k,
-            );
+                56,
+            )?;
             let pseudo_phase = determine_pseudo_phase(lg_k, num_coupons);
             let permutation = &COLUMN_PERMUTATIONS_FOR_DECODING[pseudo_phase as usize];
             let offset = determine_correct_offset(lg_k, num_coupons);
@@ -498,21 +548,35 @@ impl CompressedState {
 
             PairTable::from_slots(lg_k, num_pairs, pairs)
         };
-        UncompressedState { table, window }
+        Ok(UncompressedState { table, window })
     }
 }
 
+fn stream_overrun() -> Error {
+    Error::deserial("compressed stream is shorter than its header fields imply")
+}
+
+/// Decodes `num_pairs` (row, col) pairs; rows must be below k and columns below `num_cols`.
 fn uncompress_surprising_values(
     data: &[u32],
     data_words: usize,
     num_pairs: u32,
     lg_k: u8,
-) -> Vec<u32> {
+    num_cols: u32,
+) -> Result<Vec<u32>, Error> {
     let k = 1 << lg_k;
     let mut pairs = vec![0; num_pairs as usize];
     let num_base_bits = golomb_choose_number_of_base_bits(k + num_pairs, num_pairs as u64);
-    low_level_uncompress_pairs(&mut pairs, num_pairs, num_base_bits, data, data_words);
-    pairs
+    low_level_uncompress_pairs(
+        &mut pairs,
+        num_pairs,
+        num_base_bits,
+        data,
+        data_words,
+        k,
+        num_cols,
+    )?;
+    Ok(pairs)
 }
 
 fn uncompress_sliding_window(
@@ -521,8 +585,12 @@ fn uncompress_sliding_window(
     window: &mut Vec<u8>,
     lg_k: u8,
     num_coupons: u32,
-) {
-    let k = 1 << lg_k;
+) -> Result<(), Error> {
+    let k = 1usize << lg_k;
+    // every window byte takes at least one bit of the stream
+    if k > data.len() * 32 {
+        return Err(stream_overrun());
+    }
     window.resize(k, 0);
     let pseudo_phase = determine_pseudo_phase(lg_k, num_coupons);
     low_level_uncompress_bytes(
@@ -531,7 +599,7 @@ fn uncompress_sliding_window(
         data,
         data_words,
         &DECODING_TABLES_FOR_HIGH_ENTROPY_BYTE[pseudo_phase as usize],
-    );
+    )
 }
 
 fn low_level_uncompress_pairs(
@@ -540,13 +608,15 @@ fn low_level_uncompress_pairs(
     num_base_bits: u8,
     compressed_words: &[u32],
     num_compressed_words: usize,
-) {
+    num_rows: u32,
+    num_cols: u32,
+) -> Result<(), Error> {
     let mut word_index = 0;
     let mut bitbuf = 0;
     let mut bufbits = 0;
     let golomb_lo_mask = (1 << num_base_bits) - 1;
     let mut predicted_row_index = 0u32;
-    let mut predicted_col_index = 0u8;
+    let mut predicted_col_index = 0u32;
 
     // for each pair we need to read:
     // x_delta (12-bit length-limited unary)
@@ -569,7 +639,8 @@ fn low_level_uncompress_pairs(
         bitbuf >>= code_word_length;
         bufbits -= code_word_length;
 
-        let golomb_hi = read_unary(compressed_words, &mut word_index, &mut bitbuf, &mut bufbits);
+        let golomb_hi = read_unary(compressed_words, &mut word_index, &mut bitbuf, &mut bufbits)
+            .ok_or_else(stream_overrun)?;
         // ensure num_base_bits in the bit buffer
         maybe_fill_bitbuf(
             &mut bitbuf,
@@ -581,24 +652,31 @@ fn low_level_uncompress_pairs(
         let golomb_lo = bitbuf & golomb_lo_mask;
         bitbuf >>= num_base_bits;
         bufbits -= num_base_bits;
-        let y_delta = ((golomb_hi << num_base_bits) | golomb_lo) as u32;
+        let y_delta = (golomb_hi << num_base_bits) | golomb_lo;
 
         // Now that we have x_delta and y_delta, we can compute the pair's row and column
         if y_delta > 0 {
             predicted_col_index = 0;
         }
-        let row_index = predicted_row_index + y_delta;
-        let col_index = predicted_col_index + x_delta;
-        let row_col = (row_index << 6) | (col_index as u32);
+        let row_index = predicted_row_index as u64 + y_delta;
+        let col_index = predicted_col_index + x_delta as u32;
+        if row_index >= num_rows as u64 || col_index >= num_cols || word_index > compressed_words.len()
+        {
+            return Err(Error::deserial(
+                "compressed stream decodes to a pair outside the sketch",
+            ));
+        }
+        let row_index = row_index as u32;
+        let row_col = (row_index << 6) | col_index;
         pairs[pair_index as usize] = row_col;
         predicted_row_index = row_index;
         predicted_col_index = col_index + 1;
     }
 
-    debug_assert!(
-        word_index <= num_compressed_words,
-        "word_index: {word_index}, num_compressed_words: {num_compressed_words}",
-    );
+    if word_index > compressed_words.len() || word_index > num_compressed_words.max(1) {
+        return Err(stream_overrun());
+    }
+    Ok(())
 }
 
 fn low_level_uncompress_bytes(
@@ -607,7 +685,7 @@ fn low_level_uncompress_bytes(
     compressed_words: &[u32],
     num_compressed_words: usize,
     decoding_table: &[u16],
-) {
+) -> Result<(), Error> {
     let mut word_index = 0;
     let mut bitbuf = 0;
     let mut bufbits = 0;
@@ -631,11 +709,11 @@ fn low_level_uncompress_bytes(
         bufbits -= code_word_length;
     }
 
-    // Buffer over-run should be impossible unless there is a bug.
-    debug_assert!(
-        word_index <= num_compressed_words,
-        "word_index: {word_index}, num_compressed_words: {num_compressed_words}",
-    );
+    // A buffer over-run means that the stream is shorter than the header claims.
+    if word_index > compressed_words.len() || word_index > num_compressed_words.max(1) {
+        return Err(stream_overrun());
+    }
+    Ok(())
 }
 
 fn determine_pseudo_phase(lg_k: u8, num_coupons: u32) -> u8 {
@@ -705,9 +783,13 @@ fn read_unary(
     next_word_index: &mut usize,
     bitbuf: &mut u64,
     bufbits: &mut u8,
-) -> u64 {
+) -> Option<u64> {
     let mut subtotal = 0u64;
     loop {
+        // reading past the end yields zeros, which never terminate a unary code
+        if *next_word_index > compressed_words.len() {
+            return None;
+        }
         // ensure 8 bits in bit buffer
         maybe_fill_bitbuf(bitbuf, bufbits, compressed_words, next_word_index, 8);
         // These 8 bits include either all or part of the Unary codeword
@@ -716,7 +798,7 @@ fn read_unary(
         if trailing_zeros < 8 {
             *bufbits -= 1 + trailing_zeros;
             *bitbuf >>= 1 + trailing_zeros;
-            return subtotal + trailing_zeros as u64;
+            return Some(subtotal + trailing_zeros as u64);
         }
         // The codeword was partial, so read some more
         subtotal += 8;
@@ -747,7 +829,9 @@ fn maybe_fill_bitbuf(
     minbits: u8,
 ) {
     if *bufbits < minbits {
-        *bitbuf |= (words[*word_index] as u64) << *bufbits;
+        // words past the end read as zero; the callers report the over-run as an error
+        let word = words.get(*word_index).copied().unwrap_or(0);
+        *bitbuf |= (word as u64) << *bufbits;
         *word_index += 1;
         *bufbits += 32;
     }
